@@ -51,7 +51,7 @@ ProjWF(p) ==
     /\ p.len = Len(p.nodes)
     /\ p.ids = [i \in 1..Len(p.nodes) |-> i]
 
-Cfg == [maxm |-> tr.cfg.maxm]
+CfgOf(e) == [maxm |-> tr.cfg.maxm, failat |-> e.fail_at]
 Ret(b) == IF b THEN "true" ELSE "false"
 NoFb == [on |-> FALSE, seeds |-> <<>>, sets |-> <<>>]
 
@@ -62,7 +62,7 @@ NoFb == [on |-> FALSE, seeds |-> <<>>, sets |-> <<>>]
 Res(d, r) == [d |-> d, ret |-> r, out |-> <<>>, xl |-> <<>>, unsound |-> FALSE, adopt |-> FALSE]
 FrameRes(r) == [d |-> r[1], ret |-> r[2].ret, out |-> <<>>, xl |-> r[2].xl,
                 unsound |-> (r[2].op = "aseeds" /\ r[2].unsound), adopt |-> FALSE]
-Driver(d, f, e) == FrameRes(RunFrame(S, Cfg, d, f, e.orc))
+Driver(d, f, e) == FrameRes(RunFrame(S, CfgOf(e), d, f, e.orc))
 CallRes(r) == [d |-> r[1], ret |-> IF r[3] THEN "error" ELSE "ok", out |-> r[2], xl |-> <<>>,
                unsound |-> FALSE, adopt |-> FALSE]
 
@@ -79,8 +79,9 @@ Expected(d, e, got) ==
       [] e.op = "tgt"     -> Driver(d, TgtBegin(e.target, e.size), e)
       [] e.op = "min"     -> Driver(d, MinBegin(e.n, e.size, e.skip, e.mts), e)
       [] e.op = "aseeds"  -> Driver(d, ASeedsBegin(e.size, e.mts), e)
-      [] e.op = "skipmin" -> LET r == SkipToMinimal(S, d, e.n, e.mts) IN Res(r[1], r[2])
-      [] e.op = "skiprem" -> LET r == SkipRemaining(S, d, e.mts) IN Res(r[1], ToString(r[2]))
+      [] e.op = "skipmin" -> LET r == SkipToMinimal(S, d, e.n, e.mts, e.fail_at = 1) IN Res(r[1], r[2])
+      [] e.op = "skiprem" -> IF e.fail_at = 1 THEN Res(d, "error")
+                             ELSE LET r == SkipRemaining(S, d, e.mts) IN Res(r[1], ToString(r[2]))
       [] e.op = "cand"    -> CallRes(CandCall(d, e.n, PipeC(e, got)))
       [] e.op = "seeds"   -> CallRes(SeedsCall(S, d, e.n, PipeC(e, got), FbOf(e, got)))
       [] e.op = "sets"    -> CallRes(SetsCall(S, d, e.n, PipeC(e, got)))
